@@ -271,6 +271,8 @@ Obs == [phase     |-> phase,
         active    |-> {[loc |-> w.loc, size |-> w.size, cond |-> w.cond, via |-> w.via] : w \in active},
         nlive     |-> Cardinality(live),
         companion |-> \E w \in active : w.scoped,
+        nscoped   |-> Cardinality({w \in active : w.scoped}),
+        want      |-> {[loc |-> w.loc, rw |-> RwBits(w.cond), len |-> LenBits(w.size)] : w \in active},
         res       |-> rres]
 
 View == [phase  |-> phase,
